@@ -143,7 +143,8 @@ class StateUpdater:
 
         async def read_state_mutex() -> None:
             """Schedule to read the state from the KNX bus - one at a time."""
-            async with self._semaphore:
+            await self._semaphore.acquire()
+            try:
                 # wait until there is nothing else to send to the bus
                 await self.xknx.telegram_queue.outgoing_queue.join()
                 logger.debug(
@@ -152,9 +153,18 @@ class StateUpdater:
                     remote_value.device_name,
                     remote_value.feature_name,
                 )
-                # shield from cancellation so update_received() don't cancel the
-                # ValueReader leaving the telegram_received_cb until next telegram
-                await asyncio.shield(remote_value.read_state(wait_for_result=True))
+                read = asyncio.ensure_future(
+                    remote_value.read_state(wait_for_result=True)
+                )
+            except BaseException:
+                self._semaphore.release()
+                raise
+            # The read keeps its slot until it is done - also when the tracker is
+            # reset or stopped meanwhile and the shielded read goes on in the background.
+            read.add_done_callback(lambda _: self._semaphore.release())
+            # shield from cancellation so update_received() don't cancel the
+            # ValueReader leaving the telegram_received_cb until next telegram
+            await asyncio.shield(read)
 
         tracker_options = self.parse_tracker_options(tracker_options, str(remote_value))
         tracker = _StateTracker(
